@@ -489,6 +489,25 @@ func (t *trieRun) genCase(c *Ctx, r *RNG, id string) *TrieCase {
 			}
 			tc.Queries = genQueries(r, tc.Keys, t.qbudget)
 		}
+		if r.Intn(16) == 2 {
+			// directed: a 257-bit root whose labels inside the first 64-bit word (control bytes below
+			// 0x10) look exactly like the label set of the many identical 17-bit nodes below it, which
+			// are popular enough to get a short code
+			v1 := byte(r.Intn(15))
+			v2 := v1 + 1 + byte(r.Intn(int(15-v1)))
+			firsts := []byte{v1, v2}
+			for i := 0; i < 12+r.Intn(14); i++ {
+				firsts = append(firsts, 0x40+byte(i)*3)
+			}
+			keys := []string{}
+			for _, f := range firsts {
+				keys = append(keys, string([]byte{f, v1<<4 | 1}), string([]byte{f, v2<<4 | 1}))
+			}
+			sort.Strings(keys)
+			tc.Keys, tc.Kind = keys, "big-root-mimics-short-pattern"
+			tc.IDs, tc.VKind = genValueIDs(r, len(keys), VDistinct), vkindNames[VDistinct]
+			tc.Queries = genQueries(r, tc.Keys, t.qbudget)
+		}
 		if t.onlyKeys {
 			tc.Queries = append([]string{}, tc.Keys...)
 		}
